@@ -16,13 +16,18 @@ Model of `detector/detector.go` (`Run`, `validateAdvisories`) and of the tail of
   permutation); the correspondence compares sorted multisets and checks sortedness separately.
 -/
 import Scalibr.Base.Sort
+import Scalibr.Base.Lex
 import Scalibr.Model.Index
 namespace Scalibr.Detector
 open Scalibr.Index
 
-/-- `detector.Advisory`: the ID pointer (`(Publisher, Reference)`, `none` = nil) and everything else -/
+/-- `detector.AdvisoryID`: `Publisher` (opaque) and `Reference` as the byte string it is (`sortResults`
+orders findings by it, bytewise) -/
+abbrev AdvID := Nat × List Nat
+
+/-- `detector.Advisory`: the ID pointer (`none` = nil) and everything else -/
 structure Adv where
-  id : Option (Nat × Nat)
+  id : Option AdvID
   body : Nat
 deriving DecidableEq, Repr
 
@@ -31,7 +36,7 @@ structure Finding where
   ptr : Nat                    -- which object the detector returned (the reported finding is a copy of it)
   adv : Option Adv             -- `none` = nil Adv
   target : Nat                 -- Target (opaque payload)
-  extra : Nat                  -- Extra (second sort key)
+  extra : List Nat             -- Extra, as a byte string (second sort key)
   detectors : List String      -- Detectors
 deriving DecidableEq, Repr
 
@@ -53,7 +58,7 @@ inductive RunErr
   | ctx                                    -- ctx.Err()
   | nilFinding                             -- detector returned a nil finding
   | noAdvisory | noID
-  | mismatch (id : Nat × Nat)              -- multiple non-identical advisories with ID …
+  | mismatch (id : AdvID)                  -- multiple non-identical advisories with ID …
 deriving DecidableEq, Repr
 
 /-- state of the loop in `Run` -/
@@ -89,12 +94,12 @@ def runLoop (px : PkgMap) : List Detector → St → St
           cancelled := s.cancelled || d.cancels
           ctxReturn := false }
 
-def lookAdv : List ((Nat × Nat) × Adv) → (Nat × Nat) → Option Adv
+def lookAdv : List (AdvID × Adv) → AdvID → Option Adv
   | [], _ => none
   | (k, v) :: rest, i => if k = i then some v else lookAdv rest i
 
 /-- `validateAdvisories`, with the map `ids` as an association list (newest first) -/
-def validate : List (Option Finding) → List ((Nat × Nat) × Adv) → Option RunErr
+def validate : List (Option Finding) → List (AdvID × Adv) → Option RunErr
   | [], _ => none
   | none :: _, _ => some .nilFinding
   | some f :: fs, ids =>
@@ -136,22 +141,32 @@ structure ScanIn where
   stStatus : List Status
   dets : List Detector
 
-/-- `cmpFindings` keys: `(Adv.ID.Reference, Extra)`; `none` where the Go code would dereference nil -/
-def sortKey (f : Finding) : Option (Nat × Nat) :=
+/-- `cmpFindings` keys: `(Adv.ID.Reference, Extra)`, both byte strings; `none` where the Go code would
+dereference nil -/
+def sortKey (f : Finding) : Option (List Nat × List Nat) :=
   match f.adv with
   | some a => match a.id with
     | some i => some (i.2, f.extra)
     | none => none
   | none => none
 
-def keyLt (a b : Nat × Nat) : Bool := a.1 < b.1 || (a.1 = b.1 && a.2 < b.2)
+/-- `cmpFindings`, field by field: `if a.Reference != b.Reference { return cmpString(references) };
+return cmpString(extras)` with `cmpString` = Go's bytewise `<` -/
+def keyLt : (List Nat × List Nat) → (List Nat × List Nat) → Bool := prodLt ltBytes ltBytes
 
-def findingLt (a b : Finding) : Bool :=
-  match sortKey a, sortKey b with
+/-- keyless findings (where `cmpFindings` panics, see `ScanOut.panics`) are put first so that the
+comparator is a strict weak order on all findings -/
+def optKeyLt : Option (List Nat × List Nat) → Option (List Nat × List Nat) → Bool
   | some x, some y => keyLt x y
+  | none, some _ => true
   | _, _ => false
 
-def statusLt (a b : Status) : Bool := decide (a.name < b.name)
+def findingLt (a b : Finding) : Bool := optKeyLt (sortKey a) (sortKey b)
+
+/-- bytes of a plugin name (`cmpStatus` = `cmpString(a.Name, b.Name)`, bytewise) -/
+def nameBytes (s : String) : List Nat := s.toUTF8.toList.map (·.toNat)
+
+def statusLt (a b : Status) : Bool := ltBytes (nameBytes a.name) (nameBytes b.name)
 
 structure ScanOut where
   failed : Bool                      -- Status.Status == ScanStatusFailed
